@@ -60,6 +60,27 @@ KNOWN_WITNESSES = [
 ]
 
 
+def safe_repr(o: Any, depth: int = 0) -> str:
+    """repr() that survives ints beyond the int->str digit limit and odd objects."""
+    if isinstance(o, bool) or o is None:
+        return repr(o)
+    if isinstance(o, int):
+        return repr(o) if o.bit_length() < 2000 else f"<int of {o.bit_length()} bits, sign {1 if o > 0 else -1}>"
+    if isinstance(o, str):
+        return repr(o) if len(o) < 200 else repr(o[:40]) + f"...<{len(o)} chars>"
+    if depth > 6:
+        return "..."
+    if isinstance(o, dict):
+        return "{" + ", ".join(f"{safe_repr(k, depth + 1)}: {safe_repr(v, depth + 1)}" for k, v in list(o.items())[:20]) + "}"
+    if isinstance(o, (list, tuple)):
+        inner = ", ".join(safe_repr(v, depth + 1) for v in list(o)[:20])
+        return "[" + inner + "]" if isinstance(o, list) else "(" + inner + ")"
+    try:
+        return repr(o)
+    except Exception:  # noqa: BLE001
+        return f"<{type(o).__name__}>"
+
+
 class _Timeout(Exception):
     pass
 
@@ -138,6 +159,17 @@ def check_exception(chk: C.Check, e: BaseException, where: str, replay: dict[str
                 f"{where} raised {name} ({str(e)[:80]}) instead of a LiquidError", replay)
 
 
+def _fresh(data: dict[str, Any]) -> dict[str, Any]:
+    """A copy of the data for one render: stateful values (iterators inside a
+    ForLoop drop) must not carry state from the sync render into the async one."""
+    import copy
+
+    try:
+        return copy.deepcopy(data)
+    except Exception:  # noqa: BLE001
+        return data
+
+
 def _outcome_name(e: BaseException | None) -> str:
     return "ok" if e is None else type(e).__name__
 
@@ -169,7 +201,7 @@ def run_one(chk: C.Check, env: Any, src: str, data: dict[str, Any], stats: dict[
         sync_e: BaseException | None = None
         async_e: BaseException | None = None
         try:
-            t.render(**data)
+            t.render(**_fresh(data))
             stats["rendered"] += 1
         except BaseException as e:  # noqa: BLE001
             signal.alarm(0)
@@ -179,7 +211,7 @@ def run_one(chk: C.Check, env: Any, src: str, data: dict[str, Any], stats: dict[
         try:
             loop = asyncio.new_event_loop()
             try:
-                loop.run_until_complete(t.render_async(**data))
+                loop.run_until_complete(t.render_async(**_fresh(data)))
             finally:
                 loop.close()
         except BaseException as e:  # noqa: BLE001
@@ -328,7 +360,7 @@ def run_oracles(chk: C.Check, r: Any, stats: dict[str, int]) -> None:
         for m in muts:
             data = confuse(r, m, base_data, vals)
             run_one(chk, env, m, data, stats,
-                    {"source": m, "data": repr(data)[:600], "templates": t.get("templates") or {},
+                    {"source": m, "data": safe_repr(data)[:600], "templates": t.get("templates") or {},
                      "how": "Environment.from_string(source).render(**data) and render_async"})
     # the original suite data too (unconfused), every template
     for n, t in enumerate(cts):
@@ -346,7 +378,7 @@ def run_oracles(chk: C.Check, r: Any, stats: dict[str, int]) -> None:
     env = env_pair({})
     for src, data in G2.subscript_cases(r, chk.tier):
         stats["subscript_cases"] += 1
-        run_one(chk, env, src, data, stats, {"source": src, "data": repr(data)[:300], "stream": "subscripts"})
+        run_one(chk, env, src, data, stats, {"source": src, "data": safe_repr(data)[:300], "stream": "subscripts"})
     # ---- (d4) cyclic template graphs: recursion ends in a LiquidError
     for g in G2.graph_cases(r, chk.tier):
         genv = env_pair(g)
@@ -359,7 +391,7 @@ def run_oracles(chk: C.Check, r: Any, stats: dict[str, int]) -> None:
         benv = env_pair(G2.BUFFER_TEMPLATES, cfg)
         for src, _tpl, data in G2.buffer_cases():
             stats["blank_block_buffer_cases"] = stats.get("blank_block_buffer_cases", 0) + 1
-            run_one(chk, benv, src, data, stats, {"source": src, "templates": G2.BUFFER_TEMPLATES, "data": data,
+            run_one(chk, benv, src, data, stats, {"source": src, "templates": G2.BUFFER_TEMPLATES, "data": safe_repr(data),
                                                   "stream": "blank blocks x buffer tags"})
     # ---- (d6) stray break / continue: a Liquid error, the same from render and render_async
     for cfg in G2.CONFIGS:
@@ -368,10 +400,18 @@ def run_oracles(chk: C.Check, r: Any, stats: dict[str, int]) -> None:
             run_one(chk, env_pair(tpl, cfg), src, data, stats,
                     {"source": src, "templates": tpl, "stream": "stray break/continue"})
 
+    # ---- (d7) data of every shape in every argument position of every filter and tag
+    denv_names = sorted(env_pair({}).filters)
+    denvs = {cfg: env_pair(G2.EXPR_TEMPLATES, cfg) for cfg in G2.CONFIGS}
+    for n, (src, data) in enumerate(G2.data_argument_cases(r, chk.tier, denv_names)):
+        stats["shaped_data_cases"] = stats.get("shaped_data_cases", 0) + 1
+        run_one(chk, denvs[G2.CONFIGS[n % len(G2.CONFIGS)]], src, data, stats,
+                {"source": src, "data": safe_repr(data)[:600], "stream": "shaped data x argument positions"})
+
     # ---- (e) the recorded witnesses, re-observed on every run
     env = env_pair({})
     for src, data in KNOWN_WITNESSES:
-        run_one(chk, env, src, data, stats, {"source": src, "data": data, "recorded_witness": True})
+        run_one(chk, env, src, data, stats, {"source": src, "data": safe_repr(data), "recorded_witness": True})
 
 
 
